@@ -38,10 +38,12 @@ def setup(rec, reach):
 
 def cases(shard, nshards, seed, tier):
     yield from work3d.cases(ID, shard, nshards, seed, tier, want_models=True)
-    for j, fn in enumerate(("tests/184D.cif", "tests/1E7K_1_C.cif", "tests/1ehz-assembly-1.cif")):
+    for j, fn in enumerate(("tests/184D.cif", "tests/1E7K_1_C.cif", "tests/1ehz-assembly-1.cif", "tests/488d.pdb", "tests/1A1T_1_B.cif")):
         for nine in (False, True):
             if (2 * j + nine) % nshards == shard:
-                yield {"family": "imported-annotation", "file": fn, "nine_fields": nine, "ops": []}
+                # the last two: residues with insertion codes (488d has its own; generated ones for the other), so the
+                # short form of a unit id ENDS at the insertion-code field
+                yield {"family": "imported-annotation", "file": fn, "nine_fields": nine, "ops": [{"op": "icodes", "seed": "imported", "frac": 0.6}] if j == 4 else []}
     # two Residue3D objects carrying the same identifiers (a nucleotide whose base atoms are listed after the rest of
     # its chain): contacts between the two halves are contacts of a residue with itself
     k = 0
@@ -80,6 +82,8 @@ def _imported(case, rec):
     from rnapolis import adapter, annotator
 
     s = gen3d.load(case["file"])
+    if case.get("ops"):
+        s = gen3d.apply_ops(s, case["ops"])
     try:
         bi = annotator.extract_base_interactions(s)
     except Exception as e:
@@ -102,7 +106,8 @@ def _imported(case, rec):
     fd, path = tempfile.mkstemp(suffix=".txt", prefix="vmon-c11-")
     with os.fdopen(fd, "w") as fh:
         fh.write("\n".join(rows) + "\n")
-    ctx = {"file": case["file"], "imported": "FR3D listing of the structure's own interactions", "nine-field-unit-ids": nine}
+    ctx = {"file": case["file"], "imported": "FR3D listing of the structure's own interactions", "nine-field-unit-ids": nine,
+           "participants-with-insertion-codes": sum(1 for p in list(bi.basePairs) + list(bi.stackings) for r in (p.nt1, p.nt2) if r.auth is not None and r.auth.icode)}
     try:
         got = adapter.parse_fr3d_output(path)
     except Exception as e:
@@ -114,6 +119,13 @@ def _imported(case, rec):
     lost = [x for x in list(got.basePairs) + list(got.stackings) for r in (x.nt1, x.nt2) if s.find_residue(r.label, r.auth) is None]
     rec.check("lists.participants-in-model", not lost and len(got.basePairs) + len(got.stackings) == len(rows),
               lambda: {"ctx": ctx, "not-residues-of-the-structure": [repr(x.nt1) for x in lost[:3]], "imported": len(got.basePairs) + len(got.stackings), "listed": len(rows)})
+
+
+    both = list(got.basePairs) + list(got.stackings)
+    selfj = [x for x in both if x.nt1 == x.nt2]
+    keys = [(type(x).__name__, repr(x.nt1), repr(x.nt2)) for x in both]
+    rec.check("lists.imported-no-self-joins-no-repeats", not selfj and len(set(keys)) == len(keys),
+              lambda: {"ctx": ctx, "self-joins": [repr(x.nt1) for x in selfj[:3]], "repeated": sorted({k for k in keys if keys.count(k) > 1})[:3]})
 
 
 def _files(case, rec):
